@@ -193,7 +193,7 @@ func c13Structs(c *enumx.Ctx) {
 	}
 	// file watches on what is ON DISK: links, loops, links below files
 	wdir, cleanup := scratch()
-	for _, rel := range []string{"f", "d", "nope", "ld", "lf", "ldangling", "lloop", "lnotdir", "lld", "lloop/x", "f/x", "ld/", "lf/"} {
+	for _, rel := range []string{"f", "d", "nope", "ld", "lf", "ldangling", "lloop", "lnotdir", "lld", "lloop/x", "f/x", "ld/", "lf/", "fifo", "lfifo", "sock", "fifo/x"} {
 		if !c.Mine() {
 			continue
 		}
@@ -201,6 +201,13 @@ func c13Structs(c *enumx.Ctx) {
 		checkBuildTotal(c, "SyscallRule{dir=scratch/"+rel+"}", &rule.SyscallRule{Type: rule.AppendSyscallRuleType, List: "exit", Action: "always", Filters: []rule.FilterSpec{{Type: rule.ValueFilterType, LHS: "dir", Comparator: "=", RHS: wdir + "/" + rel}, {Type: rule.ValueFilterType, LHS: "perm", Comparator: "=", RHS: "wa"}}}, 64)
 	}
 	cleanup()
+	// devices and kernel files that exist everywhere
+	for _, abs := range []string{"/dev/null", "/dev/zero", "/dev/full", "/dev/tty", "/dev/stdin", "/proc/self/mem", "/proc/self/exe", "/proc/kmsg", "/sys/kernel"} {
+		if !c.Mine() {
+			continue
+		}
+		checkBuildTotal(c, "FileWatchRule{"+abs+"}", &rule.FileWatchRule{Type: rule.FileWatchRuleType, Path: abs, Permissions: []rule.AccessType{rule.ReadAccessType}}, 64)
+	}
 	// other Rule values
 	for _, r := range []struct {
 		d string
